@@ -157,10 +157,10 @@ fn random_ops(rng: &mut Rng, len: usize) -> Vec<Value> {
 
 pub fn run(pid: &str, func: &str, replay: Option<Value>, seed: u64) -> Value {
     if pid != "C21" { return none(&format!("no executable contract registered for {pid}")); }
-    crate::p_repo::fast_env();
+    crate::util::fast_env();
     let name = if func.is_empty() { "MutableTable::merge_in / save_table / get_head" } else { func };
     let strict_cli = func.contains("strict");
-    let known_cli = func.contains("get_head");
+    let known_cli = true; // get_head_locked head-removal: fixed in /repo ("fix: stacked_table: ..."), searched by default so a regression is reported
     if let Some(inp) = replay {
         let ops: Vec<Value> = inp.get("ops").and_then(|o| o.as_array()).cloned().unwrap_or_default();
         if !valid(&ops) { return none("replay input is not a valid C21 op sequence"); }
